@@ -7,6 +7,12 @@ COMMON_ASSUME = [
 ]
 
 TIERS = {
+    "C03": {"quick": {"runs": 400, "budget_s": 80, "run_timeout_s": 300},
+            "thorough": {"runs": 6000, "budget_s": 900, "run_timeout_s": 600}},
+    "C04": {"quick": {"runs": 400, "budget_s": 80, "run_timeout_s": 300},
+            "thorough": {"runs": 6000, "budget_s": 900, "run_timeout_s": 600}},
+    "C05": {"quick": {"runs": 300, "budget_s": 90, "run_timeout_s": 400},
+            "thorough": {"runs": 8000, "budget_s": 1500, "run_timeout_s": 900}},
     "C02": {"quick": {"runs": 400, "budget_s": 80, "run_timeout_s": 300},
             "thorough": {"runs": 6000, "budget_s": 900, "run_timeout_s": 600}},
     "C01": {"quick": {"runs": 400, "budget_s": 80, "run_timeout_s": 300},
@@ -22,7 +28,28 @@ GFI_COMPONENTS = {"real": ["genjax.core (Fn handlers, Distribution, Vmap, Scan, 
                            "sim/jaxcompat.py API adapter (JAX only)"],
                   "regimes": "REAL + SCRIPTED"}
 
+TM_RULE = ("case = (generated program, argument, seeded history of trace transitions with their configurations and "
+           "faults); distinct = distinct (program shape, transition-kind history); non-trivial = program has a combinator "
+           "or a fault fired")
+
 META = {
+    "C03": {"LEVEL": "exploration", "RULE": TM_RULE + "; transitions: init, update (gf.update / Trace.update, new args that "
+            "flip Cond predicates, constraint subsets), round trip with the discard", "COMPONENTS": GFI_COMPONENTS,
+            "ASSUMPTIONS": COMMON_ASSUME + ["PPL-ref reference trace (dict + args) is the oracle"],
+            "REQUIRED_PROBES": {"quick": ["update", "roundtrip", "update_new_args"],
+                                "thorough": ["update", "roundtrip", "update_new_args", "update_branch_switch"]}},
+    "C04": {"LEVEL": "exploration", "RULE": TM_RULE + "; transitions: regenerate with generated selection expressions under "
+            "eager/jit/vmap/SCRIPTED randomness", "COMPONENTS": GFI_COMPONENTS,
+            "ASSUMPTIONS": COMMON_ASSUME + ["PPL-ref and the Boolean meaning of selection expressions are the oracle"],
+            "REQUIRED_PROBES": {"quick": ["regenerate", "regen_scripted", "regen_empty", "regen_full", "regen_partial"],
+                                "thorough": ["regenerate", "regen_scripted", "regen_empty", "regen_full", "regen_partial",
+                                             "regen_on_scan", "regen_on_vcall", "regen_selects_into_subcall"]}},
+    "C05": {"LEVEL": "exploration", "RULE": TM_RULE + "; transitions: update, regenerate, mh, mala, hmc, lane indexing, "
+            "resample_vectorized_trace, jit round trip, two-path telescoping update", "COMPONENTS": GFI_COMPONENTS,
+            "ASSUMPTIONS": COMMON_ASSUME + ["PPL-ref reference trace is the oracle; provenance of observed addresses tracked by the machine"],
+            "REQUIRED_PROBES": {"quick": ["update", "regenerate", "mh", "jit_roundtrip", "telescope"],
+                                "thorough": ["update", "regenerate", "mh", "mala", "hmc", "jit_roundtrip", "telescope",
+                                             "lane_index", "lane_resample", "recovered_after_fault"]}},
     "C02": {
         "LEVEL": "exploration",
         "RULE": "case = (generated program, argument, seeded history of generate calls each with a seeded subset of the "
